@@ -13,24 +13,33 @@ open TdModel
 
 /-! ### what the model reads from the source on every run -/
 
-/-- `Ping`, `pingDelayDisconnect`, `pong`, `removePong`, `handlePong` are the modelled code:
-register under the id, deferred removal, write, `select` on the channel or the context; a pong
-closes and deletes the channel registered under *its* id and nothing else. -/
-theorem code_is_modelled :
-    Facts.C43.pingBody =
-      "pingID, err := crypto.RandInt64(c.rand) ; if err != nil { return err } ; pong := c.pong(pingID) ; defer c.removePong(pingID) ; if err := c.writeServiceMessage(ctx, &mt.PingRequest{PingID: pingID}); err != nil { return errors.Wrap(err, \"write\") } ; select { case <-pong: return nil case <-ctx.Done(): return ctx.Err() }" ∧
-    Facts.C43.pingDelayDisconnectBody =
-      "pingID, err := crypto.RandInt64(c.rand) ; if err != nil { return err } ; pong := c.pong(pingID) ; defer c.removePong(pingID) ; if err := c.writeServiceMessage(ctx, &mt.PingDelayDisconnectRequest{ PingID: pingID, DisconnectDelay: delay, }); err != nil { return errors.Wrap(err, \"write\") } ; select { case <-pong: return nil case <-ctx.Done(): return ctx.Err() }" ∧
-    Facts.C43.handlePongBody =
-      "var pong mt.Pong ; if err := pong.Decode(b); err != nil { return errors.Errorf(\"decode: %x\", err) } ; c.pingMux.Lock() ; ch, ok := c.ping[pong.PingID] ; if ok { close(ch) delete(c.ping, pong.PingID) } ; c.pingMux.Unlock() ; return nil" ∧
-    Facts.C43.pongBody = "ch := make(chan struct{}) ; c.pingMux.Lock() ; c.ping[pingID] = ch ; c.pingMux.Unlock() ; return ch" ∧
-    Facts.C43.removePongBody = "c.pingMux.Lock() ; delete(c.ping, pingID) ; c.pingMux.Unlock()" :=
-  ⟨rfl, rfl, rfl, rfl, rfl⟩
+/-- Structure of `Ping` / `pingDelayDisconnect` read with go/ast: the channel is registered (and
+its removal deferred) before the request is written, and the final `select` has exactly the cases
+"own channel → `return nil`" and "`ctx.Done()` → `return ctx.Err()`" (in any order).  The model *interprets* the
+case list (`pongCaseReturnsNil`, `ctxCaseReturnsNil`): a context case that returned nil would make
+`retErr` a success in the model. -/
+theorem ping_structure_is_sound :
+    (∀ c ∈ selectCases, c = (0, 0) ∨ c = (1, 1)) ∧
+    (0, 0) ∈ Facts.C43.pingCases ∧ (1, 1) ∈ Facts.C43.pingCases ∧
+    (0, 0) ∈ Facts.C43.pingDelayCases ∧ (1, 1) ∈ Facts.C43.pingDelayCases ∧
+    Facts.C43.pingRegistersBeforeWrite = true ∧ Facts.C43.pingDelayRegistersBeforeWrite = true ∧
+    pongCaseReturnsNil = true ∧ ctxCaseReturnsNil = false := by decide
 
-/-- The keep-alive loop pings under `context.WithTimeout(ctx, c.pingTimeout)` and returns the
-ping's error; `Run` runs it in its task group and returns the group's error. -/
+/-- `handlePong` closes and deletes, inside `pingMux`, exactly the channel registered under the
+pong's own ping id (and only if there is one); nothing else closes a channel; `pong` registers a
+fresh channel, `removePong` deletes, both inside `pingMux`. -/
+theorem pong_structure_is_sound :
+    Facts.C43.handlePongClosesRegistered = true ∧ Facts.C43.otherChannelCloses = 0 ∧
+    Facts.C43.pongRegistersFreshChannel = true ∧ Facts.C43.removePongDeletes = true := by decide
+
+/-- The keep-alive loop pings on every tick, lets the ping wait for exactly `pingTimeout`
+(coefficients (0, 1) of (pingInterval, pingTimeout) in `context.WithTimeout`), announces
+`pingInterval + pingTimeout` as disconnect delay, and returns the ping's error; `Run` runs it in
+its task group and returns the group's error. -/
 theorem keepalive_is_modelled :
-    Facts.C43.pingLoopUsesTimeout = true ∧ Facts.C43.pingLoopPings = true ∧
+    Facts.C43.pingLoopPingsOnTick = true ∧
+    Facts.C43.pingWaitCoeffInterval = 0 ∧ Facts.C43.pingWaitCoeffTimeout = 1 ∧
+    Facts.C43.disconnectDelayCoeffInterval = 1 ∧ Facts.C43.disconnectDelayCoeffTimeout = 1 ∧
     Facts.C43.pingLoopReturnsError = true ∧ Facts.C43.runStartsPingLoop = true ∧
     Facts.C43.runReturnsGroupError = true := by decide
 
@@ -239,6 +248,37 @@ theorem acknowledged_loop_runs (os : List TickOutcome) (h : ∀ o ∈ os, o = .o
   unfold pingLoop
   rw [this]
   exact ⟨rfl, rfl⟩
+
+/-! ### timing of a tick -/
+
+/-- The wait handed to `context.WithTimeout` is the ping timeout, whatever the interval. -/
+theorem ping_wait_is_timeout (interval timeout : Nat) : pingWait interval timeout = timeout := by
+  unfold pingWait
+  have h1 : Facts.C43.pingWaitCoeffInterval = 0 := rfl
+  have h2 : Facts.C43.pingWaitCoeffTimeout = 1 := rfl
+  rw [h1, h2]; omega
+
+/-- No pong: the tick is missed after exactly the ping timeout (not later, e.g. not after
+interval + timeout). -/
+theorem missed_pong_detected_after_timeout (interval timeout : Nat) :
+    tick interval timeout none = (.missed, timeout) := by
+  simp [tick, ping_wait_is_timeout]
+
+/-- A pong arriving at or after the timeout does not save the tick; one arriving earlier does. -/
+theorem late_pong_is_missed (interval timeout d : Nat) (h : timeout ≤ d) :
+    tick interval timeout (some d) = (.missed, timeout) := by
+  have : ¬ d < timeout := by omega
+  simp [tick, ping_wait_is_timeout, this]
+
+theorem timely_pong_is_ok (interval timeout d : Nat) (h : d < timeout) :
+    tick interval timeout (some d) = (.ok, d) := by
+  simp [tick, ping_wait_is_timeout, h]
+
+theorem disconnect_delay_is_sum (interval timeout : Nat) : disconnectDelay interval timeout = interval + timeout := by
+  unfold disconnectDelay
+  have h1 : Facts.C43.disconnectDelayCoeffInterval = 1 := rfl
+  have h2 : Facts.C43.disconnectDelayCoeffTimeout = 1 := rfl
+  rw [h1, h2]; omega
 
 /-! ### non-vacuity -/
 
